@@ -16,6 +16,15 @@ class AnalysisError(Exception):
     count below its confirmed floor). Exit code 2, never a violation and never a pass."""
 
 
+class UnprovenScope(AnalysisError):
+    """A function the argument depends on uses a construct outside the analysed subset (generator, async, match, ...): the property
+    is not proved for this tree.  Reported as a finding naming the function and construct (exit 1), not as a broken analysis."""
+
+    def __init__(self, qual: str, path: str, constructs: list) -> None:
+        super().__init__(f"{qual} uses constructs outside the analysed subset: {constructs}")
+        self.qual, self.path, self.constructs = qual, path, constructs
+
+
 def norm_text(s: str) -> str:
     return re.sub(r"\s+", " ", s).strip()
 
